@@ -87,7 +87,7 @@ func (c jsonCase) frame() model.Frame {
 func runJSONCase(c jsonCase) *core.Failure {
 	f := c.frame()
 	qf := model.BuildShape(f, c.Shape)
-	in := model.Observe(qf)
+	in := model.ObserveAs(qf, f)
 	if in.Err {
 		return core.Failf("could not build frame: %s", in.ErrText)
 	}
